@@ -33,17 +33,17 @@ Theorem C06_string_format_codes :
 Proof. exact format_codes_tie. Qed.
 Print Assumptions C06_string_format_codes.
 
-(* On ANY input the reported count stays within the input — except for format 0x03, whose terminator
-   is counted without being required to be present (03 00 00 reports 4 of 3 bytes: not a C06 violation,
-   own encodings always carry the terminator; recorded for C03/C07). *)
+(* On ANY input the reported count stays within the input (format 0x03 included, after the fix
+   "SMB_STRING.Unmarshal (format 0x03) requires the null terminator it counts as consumed": before it,
+   03 00 00 reported 4 of 3 bytes and the command decoders then sliced past the end - C07). *)
 Theorem C06_string_consumed_bound : forall input s n,
-  smb_string_unmarshal input = Ok (s, n) -> ss_fmt s <> 3 -> n <= lenN input.
+  smb_string_unmarshal input = Ok (s, n) -> n <= lenN input.
 Proof. exact string_consumed_bound. Qed.
 Print Assumptions C06_string_consumed_bound.
 
-Theorem C06_string_fmt3_overrun : smb_string_unmarshal [3; 0; 0] = Ok (mk_ss 3 0 [], 4).
-Proof. exact string_fmt3_overrun. Qed.
-Print Assumptions C06_string_fmt3_overrun.
+Theorem C06_string_fmt3_no_overrun : smb_string_unmarshal [3; 0; 0] = Err.
+Proof. exact string_fmt3_no_overrun. Qed.
+Print Assumptions C06_string_fmt3_no_overrun.
 
 Theorem C06_oem : forall s suffix, dom_oem s ->
   exists bs, oem_marshal s = Ok (bs, s) /\ oem_unmarshal (bs ++ suffix) = Ok (s, lenN bs).
